@@ -16,7 +16,7 @@ import ast
 import astq
 from units import Interp, Vals, Tup, Q, Rows, Const, Arr, Off, OffC, ArrowArr, Obj
 from model import walk_own, AnalysisError, full as norm
-from rules import geom
+from rules import geom, common
 
 EXPLANATION = (
     'Units/dimension abstract interpretation of length / area / boundary for all kinds, scalar and array forms: the public results are inferred to be '
@@ -101,6 +101,7 @@ def run(P, R, tier):
     R.assume('S1/S2: Arrow buffer layout, x/y interleaving')
     kernel_rules(P, R)
     map_kernels(P, R)
+    common.nan_buffers(P, R, 'C14.g', ['spatialpandas.geometry.' + m for m in ('point', 'multipoint', 'line', 'multiline', 'ring', 'polygon', 'multipolygon', '_algorithms.measures')], floor=4)
     I = Interp(P)
     seen = set()
     n_entries = 0
